@@ -246,6 +246,9 @@ def check_reply(res, rp, what, payload, key_hint):
         # in these forms the DRIVER runs the XML parser itself; its error handler throwing is the harness, not the library
         res.count('source_rejected_by_the_harness_parser')
         return
+    if 'src_error' in rp:
+        res.count('source_rejected_by_the_harness_parser')
+        return
     st = rp.get('status')
     if st is None and 'escaped' not in rp:
         if 'error' in rp:
@@ -530,6 +533,74 @@ def leaf_sweep_case(ctx, idx, res):
     res.sample = {'kind': 'leaf-sweep', 'leaf': leaf[:40], 'context': outer}
 
 
+PATTERN_SLOTS = [('<xsl:template match="%s">m</xsl:template>', '<xsl:apply-templates select="//node()|//@*"/>'),
+                 ('<xsl:key name="kk" match="%s" use="name()"/>', '<xsl:value-of select="count(key(\'kk\', \'a\'))"/><xsl:for-each select="//*"><xsl:value-of select="count(key(\'kk\', name()))"/></xsl:for-each>'),
+                 ('', '<xsl:for-each select="//node()|//@*"><xsl:number level="any" count="%s"/>,<xsl:number level="multiple" count="%s"/>,<xsl:number count="%s"/></xsl:for-each>'),
+                 ('', '<xsl:for-each select="//node()|//@*"><xsl:number level="any" from="%s"/>,<xsl:number level="multiple" from="%s" count="*"/>,<xsl:number from="%s"/></xsl:for-each>')]
+
+
+def pattern_sweep_case(ctx, idx, res):
+    """every hostile pattern in every place that takes a pattern, compiled and then matched against every node of a document"""
+    d = ctx.drv(FLAVOUR)
+    pat = V_PATTERN[idx // len(PATTERN_SLOTS)]
+    top, body = PATTERN_SLOTS[idx % len(PATTERN_SLOTS)]
+    e = xattr(pat)
+    xsl = (HEAD % '') + top.replace('%s', e) + '<xsl:template match="/"><out>' + body.replace('%s', e) + '</out></xsl:template></xsl:stylesheet>'
+    res.sig = 'pattern-sweep'
+    res.evals = 0
+    t = d.call(cmd='tnew')['t'].decode()
+    try:
+        for src, sty in (('stream', 'stream'), ('parsedx', 'compiled')):
+            try:
+                rp = d.call(cmd='transform', t=t, src=src, sty=sty, tgt='stream', xml=NEST_XML, xsl=xsl.encode('utf-8'))
+            except DriverDied as ex:
+                ex.request = dict(ex.request or {}, kind='pattern-sweep')
+                raise
+            res.evals += 1
+            res.count('pattern_sweep_transformations')
+            check_reply(res, rp, 'transformation with the pattern %r' % pat[:60], {'kind': 'pattern-sweep', 'stylesheet': xsl, 'document': NEST_XML, 'src': src}, 'pattern-sweep')
+    finally:
+        if d.alive():
+            d.call(cmd='tdel', t=t)
+    res.sample = {'kind': 'pattern-sweep', 'pattern': pat[:60]}
+
+
+# hostile document type declarations: names, defaults and entities that the parser accepts or refuses, and that a DOM being built may refuse later
+DTD_NAMES = ['a', 'doc', '\U00010000', 'x:y', 'x:y:z', ':', '_', 'xml', 'xmlns', 'xml:space', 'a.b-c', '\u00e9', '\u0300', '1a', 'a' * 2000, '\ufffd']
+DTD_DECLS = ['<!ATTLIST %(n)s id ID #IMPLIED>', '<!ATTLIST %(n)s %(m)s CDATA "d&lt;&#10;&#x10000;">', '<!ATTLIST doc %(n)s CDATA #FIXED "f">', '<!ATTLIST doc xmlns:%(m)s CDATA "urn:dflt">', '<!ATTLIST doc xmlns CDATA "urn:d">',
+             '<!ELEMENT %(n)s ANY>', '<!ELEMENT doc (#PCDATA|%(n)s)*>', '<!ENTITY %(m)s "text&#60;e/&#62;">', '<!ENTITY %(m)s "&%(m)s;">', '<!ENTITY %(m)s SYSTEM "nosuch.ent">', '<!ENTITY %(m)s SYSTEM "nosuch.gif" NDATA %(n)s>',
+             '<!NOTATION %(n)s SYSTEM "n">', '<!ENTITY %% %(m)s "<!ATTLIST doc p CDATA \'q\'>"> %%%(m)s;', '<!ATTLIST doc a IDREFS "x y" b ENTITY #IMPLIED c NMTOKENS "1 2" d (u|v) "u" e NOTATION (%(n)s) #IMPLIED>',
+             '<?pi in-dtd?>', '<!-- comment in the subset -->', '<!ATTLIST doc xml:space (default|preserve) "preserve" xml:lang CDATA "en">', '<!ATTLIST doc id ID #REQUIRED>', '<!ATTLIST doc i1 ID #IMPLIED i2 ID #IMPLIED>']
+
+
+def dtd_case(ctx, idx, res):
+    r = rng_for(ctx.seed, 'c03dtd', idx)
+    d = ctx.drv(FLAVOUR)
+    res.sig = 'hostile-dtd'
+    res.evals = 0
+    decls = ''.join(r.choice(DTD_DECLS) % {'n': r.choice(DTD_NAMES), 'm': r.choice(['e1', 'p', '\U00010000', 'x:y', 'a' * 300])} for _ in range(r.choice([1, 2, 3, 5])))
+    body = r.choice(['<doc/>', '<doc a="1">&e1;</doc>', '<doc>&p;<a id="i"/></doc>', '<doc><a/>t</doc>', '<doc b="e1" e="n"/>', '<doc xmlns:p="urn:x"><p:a/></doc>'])
+    xml = '<?xml version="1.0"?><!DOCTYPE doc %s[%s]>%s' % (r.choice(['', 'SYSTEM "nosuch.dtd" ', 'PUBLIC "-//x//y" "nosuch.dtd" ']), decls, body)
+    xsl = (HEAD % '') + r.choice(['<xsl:template match="@*|node()"><xsl:copy><xsl:apply-templates select="@*|node()"/></xsl:copy></xsl:template>',
+                                  '<xsl:template match="/"><o n="{count(//node())}" a="{count(//@*)}" u="{unparsed-entity-uri(\'e1\')}" i="{count(id(\'i x y\'))}"><xsl:copy-of select="/"/><xsl:for-each select="/node()"><xsl:number/></xsl:for-each></o></xsl:template>'])
+    xsl += '</xsl:stylesheet>'
+    t = d.call(cmd='tnew')['t'].decode()
+    try:
+        for src in r.sample(['stream', 'parsed', 'parsedx', 'xerceswrap', 'stwrap', 'builder'], 3):
+            try:
+                rp = d.call(cmd='transform', t=t, src=src, sty='stream', tgt=r.choice(['stream', 'dom']), xml=xml.encode('utf-8'), xsl=xsl.encode('utf-8'))
+            except DriverDied as ex:
+                ex.request = dict(ex.request or {}, kind='hostile-dtd')
+                raise
+            res.evals += 1
+            res.count('dtd_transformations')
+            check_reply(res, rp, 'transformation of a document with the subset %r supplied as %s' % (decls[:120], src), {'kind': 'hostile-dtd', 'stylesheet': xsl, 'document': xml, 'src': src}, 'hostile-dtd')
+    finally:
+        if d.alive():
+            d.call(cmd='tdel', t=t)
+    res.sample = {'kind': 'hostile-dtd'}
+
+
 # ---- coverage-guided phase (thorough tier) ---------------------------------------------------------------
 DICT = ['xsl:template', 'xsl:apply-templates', 'xsl:value-of', 'xsl:for-each', 'xsl:sort', 'xsl:number', 'xsl:key', 'xsl:variable', 'xsl:param', 'xsl:copy', 'xsl:copy-of', 'xsl:attribute', 'xsl:element',
         'xsl:output', 'xsl:import', 'xsl:include', 'xsl:decimal-format', 'xsl:message', 'xsl:call-template', 'xsl:with-param', 'select=', 'match=', 'name=', 'mode=', 'priority=', 'format=', 'level=', 'count=',
@@ -599,10 +670,12 @@ def main():
     chk.run_cases('c03', 'case', range(n))
     chk.run_cases('c03', 'sweep_case', range(len(SWEEP_FRAMES) * len(SWEEP_UNITS)))
     chk.run_cases('c03', 'leaf_sweep_case', range(len(LEAVES) * len(OUTER)))
+    chk.run_cases('c03', 'pattern_sweep_case', range(len(V_PATTERN) * len(PATTERN_SLOTS)))
+    chk.run_cases('c03', 'dtd_case', range(n // 4))
     if chk.tier == 'thorough' or os.environ.get('VERIF_FUZZ'):
         chk.ensure('fuzz', 'xvfuzz')
         chk.run_cases('c03', 'fuzz_case', range(16))
-    chk.finish(min_nontrivial=8, required_stats=('failures_reported', 'successes', 'still_usable', 'xpath_calls', 'serializer_calls', 'attribute_cases', 'integer_conversions', 'nesting_cases', 'operator_runs', 'leaf_sweep_transformations'))
+    chk.finish(min_nontrivial=8, required_stats=('failures_reported', 'successes', 'still_usable', 'xpath_calls', 'serializer_calls', 'attribute_cases', 'integer_conversions', 'nesting_cases', 'operator_runs', 'leaf_sweep_transformations', 'pattern_sweep_transformations', 'dtd_transformations'))
 
 
 if __name__ == '__main__':
